@@ -73,7 +73,13 @@ def discharge(obls, timeout=20, procs=16, seed=0, on_model=None, use_cvc5=True, 
         if z3.is_true(o.goal) and o.expect == 'unsat':
             results[i] = Result(o.id, 'unsat', 'syntactic', 0.0)
         else:
-            todo.append((i, timeout if o.expect == 'unsat' else min(timeout, 4), 'z3'))
+            if o.expect != 'unsat':
+                todo.append((i, min(timeout, 4), 'z3'))
+            elif z3.is_false(z3.simplify(o.goal)) or o.meta.get('kind', '').split(':')[0] in ('noninterference', 'no-global-write', 'nondegenerate', 'frame', 'fresh', 'deterministic', 'no-other-exception'):
+                # goal `False`: discharged only if the path is infeasible, which is found quickly or not at all
+                todo.append((i, min(timeout, 10), 'z3:short'))
+            else:
+                todo.append((i, timeout, 'z3'))
     running = {}
 
     def launch(i, tmo, backend):
@@ -114,7 +120,7 @@ def discharge(obls, timeout=20, procs=16, seed=0, on_model=None, use_cvc5=True, 
                     running[fd] = (pid, i, t0, tmo, be, buf + chunk)
                     continue
                 done = True
-            elif now - t0 > tmo + 8:
+            elif now - t0 > tmo + (8 if be == 'z3' and tmo > 10 else 3):
                 try:
                     os.kill(pid, signal.SIGKILL)
                 except OSError:
@@ -141,7 +147,7 @@ def discharge(obls, timeout=20, procs=16, seed=0, on_model=None, use_cvc5=True, 
                     prev = results[i]
                     results[i] = Result(o.id, 'unknown', be, secs + (prev.secs if prev else 0), None, out.get('reason', ''))
                     # ladder: z3 -> cvc5 -> z3 (long)
-                    if o.expect != 'unsat':
+                    if o.expect != 'unsat' or be == 'z3:short':
                         pass
                     elif be == 'z3' and tmo == timeout and use_cvc5:
                         retries.append((i, timeout, 'cvc5'))
